@@ -19,6 +19,7 @@ CONSTANTS
   Offs,       \* block offsets / symbolic-expression keys
   BSizes,     \* block sizes
   Names,      \* symbol names
+  Name0,      \* the name symbols are constructed with (a member of Names)
   Pays,       \* non-node symbol payload tokens, e.g. "#0", "#7"  (integers as strings)
   Labels,     \* CFG edge label tokens; "nolabel" is the absent label
   Tags,       \* flag / aux-key / attribute tokens
@@ -208,7 +209,7 @@ PlaceList(S, ir, newL, removed, vals) ==
 (* Initial state: everything constructed with default arguments, attached as *)
 (* Attach0 says (the harness builds it with the same public calls).          *)
 
-DefName == CHOOSE n \in Names : TRUE   \* the name symbols are constructed with
+DefName == Name0   \* the name symbols are constructed with
 InitS ==
   LET E == [mods |-> [i \in IRs |-> <<>>],
             kids |-> [p \in SetParents |-> {}],
@@ -385,22 +386,22 @@ DoGeom(o, S) == /\ op' = o /\ Commit(S) /\ UNCHANGED <<built, symVars, symx, cfg
 Trunc(bs, z) == IF Len(bs) > z THEN SubSeq(bs, 1, z) ELSE bs
 
 SetAddr(v, a) ==
-  /\ On("geom") /\ addr' = [addr EXCEPT ![v] = a]
+  /\ (On("geom") \/ On("geom.iv")) /\ addr' = [addr EXCEPT ![v] = a]
   /\ DoGeom([name |-> "attr.addr", v |-> v, a |-> a, res |-> NONE],
             Bump(S0, par[v], (IF addr[v] # NOADDR THEN 1 ELSE 0) + (IF a # NOADDR THEN 1 ELSE 0)))
   /\ UNCHANGED <<isz, off, bsz, bytes>>
 \* ByteInterval.md: shrinking size below the stored byte count truncates the bytes
 SetISize(v, z) ==
-  /\ On("geom") /\ isz' = [isz EXCEPT ![v] = z] /\ bytes' = [bytes EXCEPT ![v] = Trunc(@, z)]
+  /\ (On("geom") \/ On("geom.iv")) /\ isz' = [isz EXCEPT ![v] = z] /\ bytes' = [bytes EXCEPT ![v] = Trunc(@, z)]
   /\ DoGeom([name |-> "attr.isize", v |-> v, z |-> z, res |-> NONE],
             Bump(S0, par[v], IF addr[v] # NOADDR THEN 2 ELSE 0))
   /\ UNCHANGED <<addr, off, bsz>>
 SetOff(b, o) ==
-  /\ On("geom") /\ off' = [off EXCEPT ![b] = o]
+  /\ (On("geom") \/ On("geom.bk")) /\ off' = [off EXCEPT ![b] = o]
   /\ DoGeom([name |-> "attr.off", b |-> b, o |-> o, res |-> NONE], Bump(S0, par[b], 2))
   /\ UNCHANGED <<addr, isz, bsz, bytes>>
 SetBSize(b, z) ==
-  /\ On("geom") /\ bsz' = [bsz EXCEPT ![b] = z]
+  /\ (On("geom") \/ On("geom.bk")) /\ bsz' = [bsz EXCEPT ![b] = z]
   /\ DoGeom([name |-> "attr.bsize", b |-> b, z |-> z, res |-> NONE], Bump(S0, par[b], 2))
   /\ UNCHANGED <<addr, isz, off, bytes>>
 
@@ -652,8 +653,17 @@ SelfContained(i) ==
   /\ \A v \in Intervals \cap R : \A kv \in symx[v] :
         ExprSym[kv[2]] # NONE /\ ModOf(ExprSym[kv[2]]) = ModOf(v)
   /\ \A e \in cfg[i] : e[1] \in R /\ e[2] \in R
+\* The harness swaps its objects for the loaded ones, so nothing outside the IR may keep a
+\* reference into it, and an expression object stored twice would come back as two objects.
+Occurrences(e) == {<<v, kv>> \in Intervals \X (Offs \X Exprs) : kv \in symx[v] /\ kv[2] = e}
+Closed(i) ==
+  LET R == Sub(S0, i) IN
+  /\ \A y \in Symbols \ R : pay[y] \notin R
+  /\ \A m \in Modules \ R : entry[m] \notin R
+  /\ \A j \in IRs \ {i} : \A e \in cfg[j] : e[1] \notin R /\ e[2] \notin R
+  /\ \A e \in Exprs : (\E o \in Occurrences(e) : o[1] \in R) => Cardinality(Occurrences(e)) = 1
 Reload(i) ==
-  /\ On("reload") /\ SelfContained(i)
+  /\ On("reload") /\ SelfContained(i) /\ Closed(i)
   /\ LET R == Sub(S0, i) IN
      /\ built' = [o \in LazyOwners |-> IF o \in R THEN FALSE ELSE built[o]]
      /\ nev' = [o \in LazyOwners |-> IF o \in R THEN 0 ELSE nev[o]]
